@@ -55,6 +55,9 @@ class C04Quotient(QuotientWorld):
         if f.elements_added != len(self.model):
             raise Violation("elements_added_wrong", f"after {step}: elements_added={f.elements_added}, "
                                                     f"{len(self.model)} hashes stored", sig)
+        # the caller owns the returned list: emptying it must not reach back into the filter
+        got.clear()
+        got.append(12345)
         rows = self.layout()
         ctx.state("".join(rows))
         if self.model:
